@@ -83,3 +83,14 @@ for p in list(NOT_APPLICABLE):
         del NOT_APPLICABLE[p]
 for e in ENGINES:
     e['serves_properties'] = sorted(CHECKS)
+
+_c('C14', 'exploration',
+   'exhaustive length-window enumeration with short histories on both servers in a virtual world',
+   'For every limit in {1,2,5,10,100,1e6}: bodies of length {0,1,L-2..L+2,10L} x declared length {actual,actual+-1,L,L+1,0} x text/base64 x ASGI chunking, 0..18 packets per body, and frames around L at four WebSocket stages with/without a pending poll are sent to the real servers; reads from the gateway, data reaching handlers, status, and the fate of the session (after 8 s of virtual time and liveness probes) are checked.',
+   'ASCII boundary payloads; the WSGI input and the threaded WebSocket driver are contract-level fakes.',
+   'DESIGN.md 5 C14')
+for p in list(NOT_APPLICABLE):
+    if p in CHECKS:
+        del NOT_APPLICABLE[p]
+for e in ENGINES:
+    e['serves_properties'] = sorted(CHECKS)
